@@ -25,10 +25,12 @@ SPEC = {
         "extractor /verif/extract (go/ast): constants and packet.Type predicates regenerated into Gen/*.lean",
         "differential harness /verif/harness/c01 + chunk reader; compiled Lean driver as model and as holds-oracle",
         "compress/gzip round trip and encoding/json round trip are parameters of the model (Codec.RT, jsonNorm)",
+        "gorilla/websocket, quic-go and kcp-go are the real transports of the ws/xport runs: not modelled — the model quantifies over every chunking they could produce (and over the end of the stream arriving with the last bytes)",
     ],
     "assumptions": [
         "WF: base type < 0x40 (flag bits are set by the writer only), heartbeat carries no body, body and wire body <= MaxPacketBodySize, command bodies are canonical JSON of a CommandPacket",
         "transport Read never returns (0, nil) (io.Reader contract discourages it)",
+        "a packet carrying the 0x80 (encrypted) flag is outside the round trip (the reader rejects it); for it the claim is alignment only: consumed exactly, following packets unread (holdsSeq, C01_rejected_aligned)",
         "concurrent callers: the model serialises whole packets in lock-acquisition order (theorem C01_concurrent_writers); that WritePacket/ReadPacket hold their lock across all transport calls is pinned by skeleton and driven by the gated-writer cases (`cw`); concurrent READERS are pinned by skeleton only",
     ],
 }
